@@ -64,12 +64,14 @@ def ref_unit(suffix, kind, cls):
         'stubs': CORE_READ + CORE_WRITE,
         'spec': SPEC, 'native': False,
         'obligations': [
+            # (the text of this layer differs between configurations only where JsonFloat / JsonInteger / SlotId appear: the arithmetic
+            #  obligations run under nodbl in the quick tier too, everything runs under all four configurations in the thorough tier)
             ob('reads_arith', 'h_ref_reads_arith', 'CANARY_REF_READS_ARITH', ['C13', 'C06', 'C04'], defs),
-            ob('reads_other', 'h_ref_reads_other', 'CANARY_REF_READS_OTHER', ['C04', 'C06', 'C14'], defs),
-            ob('set_scalar', 'h_ref_set_scalar', 'CANARY_REF_SET_SCALAR', ['C05', 'C04', 'C13'], defs),
-            ob('set_other', 'h_ref_set_other', 'CANARY_REF_SET_OTHER', ['C05', 'C04', 'C14'], defs),
-            ob('to_clear', 'h_ref_to_clear', 'CANARY_REF_TO_CLEAR', ['C04', 'C05'], defs),
-            ob('collection_ops', 'h_ref_collection_ops', 'CANARY_REF_COLL', ['C04', 'C05', 'C06'], defs),
+            ob('reads_other', 'h_ref_reads_other', 'CANARY_REF_READS_OTHER', ['C04', 'C06', 'C14'], defs, quick_configs=['def64']),
+            ob('set_scalar', 'h_ref_set_scalar', 'CANARY_REF_SET_SCALAR', ['C05', 'C04'], defs),
+            ob('set_other', 'h_ref_set_other', 'CANARY_REF_SET_OTHER', ['C05', 'C04', 'C14'], defs, quick_configs=['def64']),
+            ob('to_clear', 'h_ref_to_clear', 'CANARY_REF_TO_CLEAR', ['C04', 'C05'], defs, quick_configs=['def64']),
+            ob('collection_ops', 'h_ref_collection_ops', 'CANARY_REF_COLL', ['C04', 'C05', 'C06'], defs, quick_configs=['def64']),
         ],
     }
 
@@ -167,11 +169,14 @@ def e2e_units():
         d['unwind'] = 8
         d['cbmc'] = ['--object-bits', '10']
         return d
-    return [
-        {'unit': 'api_e2e_read', 'props': ['C06', 'C04'], 'tu': 'api', 'configs': ['def64', 's1p16'], 'quick_configs': ['def64'],
+    units = [
+        {'unit': 'api_e2e_read', 'props': ['C06', 'C04'], 'tu': 'api', 'configs': ['def64', 's1p16'], 'quick_configs': ['s1p16'],
          'roots': E2E_COMMON + ['re:api::e2e_member_.*', 're:api::e2e_element_.*', 're:api::e2e_nested_.*'],
          'stubs': ['DefaultAllocator__instance'], 'spec': SPEC, 'native': True,
-         'obligations': [e('read_missing_never_allocates', 'h_e2e_read_missing', 'CANARY_E2E_READ', ['C06', 'C04'], ['E2E_READ=1'])]},
+         'obligations': [e('read_missing_never_allocates', 'h_e2e_read_missing', 'CANARY_E2E_READ', ['C06', 'C04'], ['E2E_READ=1']),
+                         e('read_missing_member_of_new_document', 'h_e2e_read_missing', 'CANARY_E2E_READ', ['C06', 'C04'], ['E2E_READ=1', 'READ_SEL=0', 'READ_ROOT=0x00']),
+                         e('read_missing_element_of_empty_array', 'h_e2e_read_missing', 'CANARY_E2E_READ', ['C06', 'C04'], ['E2E_READ=1', 'READ_SEL=6', 'READ_ROOT=0x40']),
+                         e('read_missing_nested_member_of_empty_object', 'h_e2e_read_missing', 'CANARY_E2E_READ', ['C06', 'C04'], ['E2E_READ=1', 'READ_SEL=7', 'READ_ROOT=0x20'])]},
         {'unit': 'api_e2e_set', 'props': ['C05', 'C04'], 'tu': 'api', 'configs': ['def64', 's1p16'], 'quick_configs': ['s1p16'],
          'roots': E2E_COMMON + ['api::e2e_set_variant'],
          'stubs': ['DefaultAllocator__instance'] + CUT_CONTAINERS, 'spec': SPEC, 'native': True,
@@ -191,6 +196,92 @@ def e2e_units():
          'stubs': ['DefaultAllocator__instance'] + CUT_CONTAINERS, 'spec': SPEC, 'native': True,
          'obligations': [e('failed_add_gives_its_slot_back', 'h_e2e_add_failure', 'CANARY_E2E_ADD', ['C19', 'C06', 'C05'], ['E2E_ADD=1', 'EXT_KIND=0x1A'], timeout=300)]},
     ]
+    units += [
+        {'unit': 'api_e2e_unstored', 'props': ['C04'], 'tu': 'api', 'configs': ['def64', 's1p16'], 'quick_configs': ['s1p16'],
+         'roots': E2E_COMMON + ['api::e2e_element_set_cstr', 'api::e2e_member_set_cstr', 'api::e2e_element_set_int'],
+         'stubs': ['DefaultAllocator__instance', 'CollectionData__clear__ResourceManager_p'], 'spec': SPEC, 'native': True,
+         'obligations': [e('set_true_means_stored_' + n, 'h_e2e_unstored', 'CANARY_E2E_UNSTORED', ['C04'], ['E2E_UNSTORED=1', 'UNSTORED_SCEN=' + k])
+                         for n, k in (('element_of_object', '0'), ('member_of_array', '1'), ('null_key', '2'), ('integer_is_refused', '3'))]},
+        {'unit': 'api_e2e_arrayset', 'props': ['C04', 'C05', 'C06'], 'tu': 'api', 'configs': ['def64', 's1p16'], 'quick_configs': ['s1p16'],
+         'roots': E2E_COMMON + ['api::e2e_array_set', 'api::e2e_array_add_int'],
+         'stubs': ['DefaultAllocator__instance', 'VariantRefBase_JsonVariant__set_JsonArrayConst', 'VariantRefBase_JsonVariant__set_JsonObjectConst'], 'spec': SPEC, 'native': True,
+         'obligations': [e('array_set_replaces_content_' + n, 'h_e2e_array_set', 'CANARY_E2E_ARRAYSET', ['C04', 'C05', 'C06'], ['E2E_ARRAYSET=1', 'ARRAYSET_N=' + k], cls='B', timeout=300, tier='thorough')
+                         for n, k in (('from_empty', '0'), ('from_one', '1'))]},
+    ]
+    for u in units:
+        u['shim'] = {'tu_include': 'api.cpp'}   # the native replay links the REAL instantiations of tu/api.cpp
+    return units
+
+
+STRKIND_STUBS = [
+    'JsonDocument__clear', 'VariantData__clear__ResourceManager_p',
+    'VariantData__setString_StaticStringAdapter__StaticStringAdapter_ResourceManager_p',
+    'VariantData__setString_ZeroTerminatedRamString__ZeroTerminatedRamString_ResourceManager_p',
+    'VariantData__setString_JsonStringAdapter__JsonStringAdapter_ResourceManager_p',
+    'VariantData__getOrAddMember_StaticStringAdapter', 'VariantData__getOrAddMember_ZeroTerminatedRamString', 'VariantData__getOrAddMember_JsonStringAdapter',
+    'VariantData__getOrAddElement', 'VariantData__setInteger_int',
+    'ArrayData__addValue_char_p_r__char_p_r_ResourceManager_p', 'ArrayData__addValue_constchar_p_r__char_p_r_ResourceManager_p',
+]
+
+
+def strkind_units():
+    defs = ['U_STRKIND=1']
+    return [
+        {'unit': 'api_doc_set', 'props': ['C14', 'C04'], 'tu': 'api', 'configs': ['def64'], 'quick_configs': ['def64'],
+         'roots': ['re:api::sk_doc_set_.*'], 'stubs': STRKIND_STUBS, 'spec': SPEC, 'native': False,
+         'obligations': [
+             ob('doc_set_mutable_char_array', 'h_sk_doc_set_array', 'CANARY_SK_DOC_ARRAY', ['C14', 'C04'], defs + ['SK_DOC=1']),
+             ob('doc_set_other_sources', 'h_sk_doc_set_other', 'CANARY_SK_DOC_OTHER', ['C14', 'C04'], defs + ['SK_DOC=1']),
+         ]},
+        {'unit': 'api_strkind', 'props': ['C14', 'C04'], 'tu': 'api', 'configs': ['def64'], 'quick_configs': ['def64'],
+         'roots': ['re:api::sk_variant_.*', 're:api::sk_member_.*', 're:api::sk_element_.*', 're:api::sk_array_.*', 're:api::sk_docadd_.*',
+                   're:api::sk_dockey_.*', 're:api::sk_objkey_.*', 're:api::sk_varkey_.*'],
+         'stubs': STRKIND_STUBS, 'spec': SPEC, 'native': False,
+         'obligations': [
+             ob('value_sources', 'h_sk_values', 'CANARY_SK_VALUES', ['C14', 'C04'], defs + ['SK_REST=1']),
+             ob('array_add_sources', 'h_sk_adds', 'CANARY_SK_ADDS', ['C14', 'C04'], defs + ['SK_REST=1']),
+             ob('key_sources', 'h_sk_keys', 'CANARY_SK_KEYS', ['C14', 'C04'], defs + ['SK_REST=1']),
+         ]},
+    ]
+
+
+def doc_unit():
+    defs = ['U_DOC=1']
+    return {
+        'unit': 'api_doc', 'props': ['C04', 'C06', 'C13'], 'tu': 'api',
+        'configs': ['def64', 's1p16'], 'quick_configs': ['def64'],
+        'roots': ['re:api::dq_.*'],
+        'stubs': ['VariantData__asIntegral_int', 'VariantData__isInteger_int', 'VariantData__asFloat_float', 'VariantData__asFloat_double', 'VariantData__asString',
+                  'VariantData__size__ResourceManager_p', 'VariantData__nesting__ResourceManager_p', 'VariantData__addElement__ResourceManager_p',
+                  'ArrayData__addValue_constint_r__int_r_ResourceManager_p', 'ArrayData__addValue_constchar_p_r__char_p_r_ResourceManager_p',
+                  'VariantData__getMember_StaticStringAdapter__StaticStringAdapter_ResourceManager_p', 'VariantData__getElement__ulong_ResourceManager_p',
+                  'VariantData__removeElement__VariantData_p_ulong_ResourceManager_p',
+                  'VariantData__removeMember_StaticStringAdapter__VariantData_p_StaticStringAdapter_ResourceManager_p'],
+        'spec': SPEC, 'native': False,
+        'obligations': [
+            ob('doc_reads', 'h_doc_reads', 'CANARY_DOC_READS', ['C04', 'C06', 'C13'], defs),
+            ob('doc_collection_ops', 'h_doc_collection_ops', 'CANARY_DOC_COLL', ['C04', 'C05'], defs),
+        ],
+    }
+
+
+def loops_unit():
+    defs = ['U_SETLOOPS=1']
+    u = {
+        'unit': 'api_set_loops', 'props': ['C04', 'C05'], 'tu': 'api',
+        'configs': ['def64', 's1p16'], 'quick_configs': ['def64'],
+        'roots': ['JsonArray::set', 'JsonObject::set'],
+        'stubs': ['JsonArrayConst__begin', 'JsonArrayConst__end', 'JsonArrayConstIterator__op_ne', 'JsonArrayConstIterator__op_inc', 'JsonArrayConstIterator__op_star',
+                  'JsonObjectConst__begin', 'JsonObjectConst__end', 'JsonObjectConstIterator__op_ne', 'JsonObjectConstIterator__op_inc', 'JsonObjectConstIterator__op_star',
+                  'CollectionData__clear__ResourceManager_p', 'ArrayData__addValue_constJsonVariantConst_r__JsonVariantConst_r_ResourceManager_p',
+                  'VariantData__getOrAddMember_JsonStringAdapter', 'copyVariant'],
+        'spec': SPEC, 'loops': 'contracts/api.loops.json', 'native': False,
+        'obligations': [
+            ob('array_set_anylen', 'h_array_set_anylen', 'CANARY_ARRAY_SET_U', ['C04', 'C05'], defs, timeout=300),
+            ob('object_set_anylen', 'h_object_set_anylen', 'CANARY_OBJECT_SET_U', ['C04', 'C05'], defs, timeout=300),
+        ],
+    }
+    return u
 
 
 def addvalue_unit():
@@ -206,7 +297,7 @@ def addvalue_unit():
 
 
 def main():
-    units = [ref_unit(*r) for r in REFS] + [const_unit(), array_unit(), object_unit(), addvalue_unit()] + e2e_units()
+    units = [ref_unit(*r) for r in REFS] + [const_unit(), doc_unit(), array_unit(), object_unit(), loops_unit(), addvalue_unit()] + strkind_units() + e2e_units()
     json.dump(units, open(os.path.join(ROOT, 'units', 'api.json'), 'w'), indent=1)
     print('%d units, %d obligations' % (len(units), sum(len(u['obligations']) for u in units)))
 
